@@ -296,6 +296,10 @@ GLOBALS = [('thr', '100'), ('is_freq', 'months >= 3'), ('per_month', 'total / mo
 
 def gen_views(rnd):
     gl = [g for g in GLOBALS if rnd.random() < .75]
+    if rnd.random() < .3:
+        # a variable that cannot be evaluated (for every merchant, or only for single-month ones) declared BEFORE variables that can
+        gl.insert(rnd.randint(0, max(0, len(gl) - 1)), rnd.choice([('zbad', 'total / period("week")'), ('zbad', 'nosuchname + 1'),
+                                                                   ('zbad', '(total if months > 1 else nosuchname)')]))
     views = []
     for i in range(rnd.randint(6, 12)):
         loc = []
@@ -308,6 +312,8 @@ def gen_views(rnd):
             loc.append(('is_freq', 'months >= 1'))
         elif r < .45:
             loc.append(('undefined_local', '1'))
+        if loc and rnd.random() < .15:
+            loc.insert(0, ('zlocbad', rnd.choice(['nosuchname * 2', 'sum(category)'])))
         f = rnd.choice(BAD_FILTERS) if rnd.random() < .12 else gfilter(rnd)
         views.append({'name': 'V%d' % i, 'locals': loc, 'filter': f})
     if rnd.random() < .5:
